@@ -195,6 +195,14 @@ def execute(case, prefix):
     def main():
         c = A.AsyncRecordOnlyTapeCassette(inner, flush_interval=0.1, timeout_on_close=10)
         holder['c'] = c
+        # opcode granularity in every function that touches the shared containers or the locks guarding them - whatever they are called
+        import collections
+        shared = {k for k, v in vars(c).items() if isinstance(v, (list, dict, set, collections.deque, S.VLock, S.VRLock, S.VCondition, S.VSemaphore))}
+        if not shared:
+            raise HarnessError('the asynchronous cassette keeps no container / lock attribute: granularity selection must be extended')
+        if not shared <= s.opcode_attrs:
+            s.opcode_attrs |= shared
+            s._fine.clear()
         c.start()
         recs = [c.create_new_recording('cat') for _ in range(w['recs'])]
         threads = []
